@@ -60,6 +60,13 @@ def harnesses():
     # LATTICE harnesses with the real multipliers (c02::mul_lattice / widening_lattice, 3 free bits per limb) were probed at
     # 192/256 bits and 192x192, 256x128, 256x256: CBMC exhausts 14 GB after 9-10 min (16+16 full 64x64 multiplier circuits
     # next to addmul's symbolic slices) - not registered; the bodies stay in c02.rs
+    # 4-limb shapes of the generic trimming addmul (two full rows): probing (7200 s)
+    out.append(H("c02_overflowing_uf_256", "C02", "c02::overflowing_uf::<256,4,9>", unwind=11, tier="thorough",
+                 inst="Uint<256,4>", domain=UFDOM, free_bits=512, stubs=UF, abstract=True,
+                 fns=["overflowing_mul", "algorithms::addmul"], timeout=7200, covers_required=["overflows", "fits-nonzero"]))
+    out.append(H("c02_widening_uf_192_192", "C02", "c02::widening_uf::<192,3,192,3,384,6,7>", unwind=9, tier="thorough",
+                 inst="Uint<192,3> x Uint<192,3> -> Uint<384,6>", domain=UFDOM, free_bits=384, stubs=UF, abstract=True,
+                 fns=["widening_mul"], timeout=7200))
     b = 256
     l = nlimbs(b)
     w = 2 * l + 1
